@@ -499,7 +499,16 @@ fn answer_lib(line: &str) -> String {
         ["at_jdn", ct, j] => {
             let c = cal!(ct);
             let j: i32 = p!(j.parse().ok());
-            show_date(&c.at_jdn(j))
+            let d = c.at_jdn(j);
+            // the accessors too: zero-based ordinals and the style flags (on every kind of calendar)
+            format!(
+                "{} o0={} d0={} os={} ns={}",
+                show_date(&d),
+                d.ordinal0(),
+                d.day_ordinal0(),
+                b01(d.is_julian()),
+                b01(d.is_gregorian())
+            )
         }
         ["at_ymd", ct, y, m, d] => {
             let c = cal!(ct);
@@ -742,7 +751,7 @@ fn answer_lib(line: &str) -> String {
             }
         }
         ["months_ops", ops] => {
-            let mut it = MonthIter::new();
+            let mut it = MonthIter::default();
             let out: Vec<String> = ops
                 .chars()
                 .map(|o| match o {
